@@ -15,7 +15,9 @@ func Hash(sig [64]byte) uint64 {
 	return verifUF64("xxhash", binary.LittleEndian.Uint64(sig[:8]))
 }
 
-func verifC05b2u(c bool) uint64 { return verifIteU64(c, 1, 0) }
+// branch-free connectives under symgo (engine intrinsics, ext_C05.go); plain Go natively
+func verifC05Or(a, b bool) bool  { return a || b }
+func verifC05And(a, b bool) bool { return a && b }
 
 // boundary prefixes: both byte orders of 1 and 0xff, zero, all ones, an asymmetric value
 var verifC05Prefixes = [][2]byte{{0x00, 0x00}, {0x01, 0x00}, {0x00, 0x01}, {0xff, 0xff}, {0xff, 0x00}, {0x00, 0xff}, {0x12, 0x34}, {0x34, 0x12}}
@@ -69,33 +71,74 @@ func VerifC05Clean() {
 		verifAssert(out[i-1] < out[i], "C05.clean: output not strictly increasing")
 	}
 	for _, x := range orig { // no input value is lost
-		var hit uint64
+		hit := false
 		for _, y := range out {
-			hit |= verifC05b2u(x == y)
+			hit = verifC05Or(hit, x == y)
 		}
-		verifAssert(hit != 0, "C05.clean: an input hash is missing from the clean set (false negative)")
+		verifAssert(hit, "C05.clean: an input hash is missing from the clean set (false negative)")
 	}
 	for _, y := range out { // nothing is invented
-		var hit uint64
+		hit := false
 		for _, x := range orig {
-			hit |= verifC05b2u(x == y)
+			hit = verifC05Or(hit, x == y)
 		}
-		verifAssert(hit != 0, "C05.clean: clean set holds a value that was never added")
+		verifAssert(hit, "C05.clean: clean set holds a value that was never added")
 	}
 	verifReach("end")
 }
 
-// C05.search — the in-memory bucket pipeline of seal (getCleanSet, sortWithCompare with the
+// verifC05Pops: bucket populations for the concrete-key mode: every n in 0..N plus the
+// 2^k-1, 2^k, 2^k+1 boundaries up to big.
+func verifC05Pops(N, big int) []int {
+	var out []int
+	for n := 0; n <= N; n++ {
+		out = append(out, n)
+	}
+	for k := 64; k <= big; k *= 2 {
+		for _, n := range []int{k - 1, k, k + 1} {
+			if n > N {
+				out = append(out, n)
+			}
+		}
+	}
+	return out
+}
+
+// verifC05ConcreteKeys: n distinct concrete hashes 5, 8, 11, ... fed in the order (1,0,3,2,...)
+// plus one duplicate, so that the real dedup and both sorts have work to do but nothing forks.
+func verifC05ConcreteKeys(n int) []uint64 {
+	h := make([]uint64, 0, n+1)
+	for i := 0; i < n; i++ {
+		j := i ^ 1
+		if j >= n {
+			j = i
+		}
+		h = append(h, uint64(3*j+5))
+	}
+	if n > 0 {
+		h = append(h, h[n/2])
+	}
+	return h
+}
+
+// C05.search.* — the in-memory bucket pipeline of seal (getCleanSet, sortWithCompare with the
 // three-way comparator, eytzinger) followed by the reader's searchEytzinger:
 // for EVERY 64-bit x: found (nil error, returned value x) iff x is one of the added hashes,
 // otherwise ErrNotFound. x ranges over all values, so "every added hash is found" is the
 // x == h[i] instance.
+// mode 0: the hashes are symbolic (n <= perm: arbitrary order with duplicates; larger n: assumed
+// strictly increasing). mode 1: concrete hashes, population n up to thousands; the code under
+// test only compares hashes, so x symbolic covers each of the 2n+1 order positions of x.
 func VerifC05Search() {
-	n := verifChoice("n", verifParam("N", 16)+1)
-	minN := verifParam("minN", 0)
-	verifAssume(n >= minN)
-	ordered := n > verifParam("perm", 4)
-	h := verifC05Hashes(n, ordered)
+	var h []uint64
+	if verifParam("conc", 0) == 1 {
+		pops := verifC05Pops(verifParam("N", 16), verifParam("big", 0))
+		h = verifC05ConcreteKeys(pops[verifChoice("n", len(pops))])
+	} else {
+		minN := verifParam("minN", 0)
+		n := minN + verifChoice("n", verifParam("N", 8)-minN+1)
+		h = verifC05Hashes(n, n > verifParam("perm", 3))
+	}
 	orig := append([]uint64(nil), h...)
 	entries := getCleanSet(h)
 	sortWithCompare(entries, verifC05Cmp(entries))
@@ -105,17 +148,17 @@ func VerifC05Search() {
 		reads++
 		return entries[i], nil
 	})
-	var in uint64
+	in := false
 	for _, y := range orig {
-		in |= verifC05b2u(x == y)
+		in = verifC05Or(in, x == y)
 	}
 	if err == nil {
 		verifAssert(got == x, "C05.search: search returned a value different from the wanted hash")
-		verifAssert(in != 0, "C05.search: search found a hash that was never added")
+		verifAssert(in, "C05.search: search found a hash that was never added")
 		verifReach("found")
 	} else {
 		verifAssert(err == ErrNotFound, "C05.search: unexpected error")
-		verifAssert(in == 0, "C05.search: an added hash is not found in its own bucket (false negative)")
+		verifAssert(!in, "C05.search: an added hash is not found in its own bucket (false negative)")
 		verifReach("notfound")
 	}
 	// the descent reads at most floor(log2 n)+1 elements
